@@ -613,7 +613,7 @@ func termRules(c *Ctx) {
 		for ei, e := range edges {
 			nEdges++
 			props := []string{"C09"}
-			if strings.HasSuffix(c.P.Fset.Position(e.caller.Decl.Pos()).Filename, "/schema.go") {
+			if c.below(e.caller, "Schema") {
 				props = []string{"C20", "C09"}
 			}
 			key := e.caller.QName() + "->" + e.callee.Name()
@@ -801,7 +801,7 @@ func (c *Ctx) visitedThreading(sccs [][]*core.FuncInfo) {
 		for _, f := range scc {
 			info := c.info(f)
 			props := []string{"C09"}
-			if strings.HasSuffix(c.P.Fset.Position(f.Decl.Pos()).Filename, "/schema.go") {
+			if c.below(f, "Schema") {
 				props = []string{"C20", "C09"}
 			}
 			ast.Inspect(f.Decl.Body, func(nd ast.Node) bool {
